@@ -39,7 +39,7 @@ class Family:
     """Object family: immutable attributes are functions Ref->T, mutable fields
     are heap arrays, methods have FnSpecs."""
     def __init__(self, name, attrs=None, fields=None, methods=None, axioms=(),
-                 eq_str=None, eq=None, truthy=None, note=''):
+                 eq_str=None, eq=None, truthy=None, note='', attr_requires=None):
         self.name = name
         self.attrs = dict(attrs or {})
         self.fields = dict(fields or {})
@@ -47,6 +47,7 @@ class Family:
         self.axioms = list(axioms)    # [expr str over a universally quantified `o` of this family]
         self.eq_str = eq_str          # expr str over (o, s)
         self.eq = eq                  # expr str over (a, b)
+        self.attr_requires = dict(attr_requires or {})   # attr -> expr over `o` (else AttributeError)
         self.note = note
 
 
@@ -59,7 +60,8 @@ class Contract:
                  effect_guard=None, variants=None, kind='post', allow_callee_exceptions=True,
                  ghost=None, axioms=(), method_of=None, notes='', drop_calls=(),
                  expect_obligations=None, cover=True, exc_mode='auto', spec_module=None,
-                 safety=True, witness=None):
+                 safety=True, witness=None, merge=True, yield_each=(), yield_key=None,
+                 concrete_ensures=(), witness_library=()):
         self.id = id
         self.file = file
         self.qualname = qualname
@@ -103,3 +105,18 @@ class Contract:
         self.spec_module = spec_module
         self.safety = safety
         self.witness = witness
+        self.merge = merge
+        self.yield_each = list(yield_each)      # P(c) proved at every yield, over entry values only
+        self.yield_key = yield_key              # key(c): proved fresh at every yield (=> pairwise distinct)
+        self.witness_library = list(witness_library)   # concrete inputs tried on the real code when a proof fails
+        self.concrete_ensures = list(concrete_ensures)   # executable consequences, used by replay only
+
+
+def callee_of(contract, name=None, pure=True, assumed=False, raises=()):
+    """the contract of a function under verification, as seen from a call site"""
+    params = [(n, t) for n, t in contract.params.items()]
+    sp = FnSpec(name or contract.qualname.split('.')[-1], params=params, ret=contract.ret, pure=pure,
+                requires=list(contract.requires), ensures=list(contract.ensures), raises=list(raises),
+                assumed=assumed)
+    sp.decreases = contract.decreases if isinstance(contract.decreases, str) else None
+    return sp
